@@ -233,6 +233,9 @@ class World(object):
         self.stopped = {}           # wf_ex_id -> state requested by a stop
         self.reran = {}             # task_ex_id -> number of reruns
         self.allow_paused = False
+        self.hold_async = bool(case.get('hold_async'))
+        self.async_order = list(case.get('async_order') or [])
+        self.async_task_of = {}
 
     # ------------------------------------------------------------------
     def setup(self):
@@ -450,6 +453,7 @@ class World(object):
         if action._SYNC:
             return vactions.make_result(outcome)
         with self.lock:
+            self.async_task_of[action_ex_id] = action.t
             if outcome[0] == 'never':
                 self.withheld.add(action_ex_id)
             else:
@@ -569,10 +573,32 @@ class World(object):
         if self.on_boundary:
             self.on_boundary(self)
 
+    def _release_one_async(self):
+        """hold_async mode: async results are delivered one at a time, only
+        when nothing else can run, in the order given by async_order."""
+        with self.lock:
+            if not self.pending_async:
+                return False
+            order = self.async_order or []
+
+            def prio(item):
+                t = self.async_task_of.get(item[0])
+                return order.index(t) if t in order else len(order)
+            best = min(range(len(self.pending_async)),
+                       key=lambda i: (prio(self.pending_async[i]), i))
+            action_ex_id, outcome = self.pending_async.pop(best)
+        self.engine_cast('on_action_complete', action_ex_id=action_ex_id,
+                         result=vactions.make_result(outcome),
+                         wf_action=False)
+        return True
+
     def _candidates(self):
-        self._collect_async()
+        if not self.hold_async:
+            self._collect_async()
         self._collect_due()
         run = self.coop.runnable()
+        if self.hold_async and not run and self._release_one_async():
+            run = self.coop.runnable()
         forced = [u for u in run if u.forced or (
             u.kind == 'cmd' and u.state == coop_mod.BLOCKED)]
         if forced:
